@@ -29,11 +29,12 @@ func init() {
 	engine.Register(&engine.Check{
 		ID:    "C01",
 		Title: "Programs evaluate to the result ECMAScript 5 prescribes",
-		Rule: "every program of eight generator families (A control skeletons, B binding histories, C calls/arguments/constructors, " +
-			"D evaluation order, E conditionally evaluated statement-head expressions, L label-name reuse across functions/eval/siblings, F for-in over multi-key objects with side-effecting targets, R scope mutation between resolution and use of an identifier Reference) is enumerated completely within its bound (choice vectors of engine.Explore / full products); each " +
+		Rule: "every program of the generator families (A control skeletons, B binding histories, C/Cnew/Cnative calls, arguments, constructors, built-in callees, " +
+			"D evaluation order, E conditionally evaluated statement-head expressions, L label-name reuse, F for-in over multi-key objects, R scope mutation between resolution and use of a Reference, " +
+			"S leaving scope-introducing constructs, G arguments-object histories, K bind chains and re-entrant bound calls, P accessors reached through the prototype chain, hand-written witnesses) is enumerated completely within its bound (choice vectors of engine.Explore / full products); each " +
 			"program text is distinct; it is run on otto through Run(string), Compile+Run, ParseFile+Run(*ast.Program), Eval, and a " +
-			"Script compiled on runtime A run on fresh runtimes B and C, and compared with ref/js (global code; eval code for the Eval " +
-			"route): host-call sequence with canonical arguments, completion value, uncaught-exception class. A case is non-trivial " +
+			"Script compiled on runtime A run on fresh runtimes B and C, and compared with ref/js evaluating it as global code on EVERY " +
+			"route (route independence; that Otto.Eval instantiates it as eval code is a known finding): host-call sequence with canonical arguments, completion value, uncaught-exception class. A case is non-trivial " +
 			"when the model execution makes at least one host call, throws, or completes with a value other than undefined.",
 		Families: []engine.Family{
 			{Name: "A", Run: runA},
@@ -51,6 +52,7 @@ func init() {
 			{Name: "S", Run: runS},
 			{Name: "G", Run: runG},
 			{Name: "K", Run: runK},
+			{Name: "P", Run: runP},
 			{Name: "witness", Run: runWitness, Solo: true},
 		},
 		Assumptions: []string{
@@ -67,6 +69,7 @@ func init() {
 		name := js.AltNames[i]
 		engine.RegisterSignature("c01-"+name, altSignature(name))
 	}
+	engine.RegisterSignature("c01-"+evalRouteSwitch, altSignature(evalRouteSwitch))
 }
 
 // altSignature accepts a mismatch exactly when the check established (and
@@ -252,11 +255,32 @@ func altName(f js.Flags) string {
 
 // explain searches the smallest set of alternative-model switches whose
 // prediction equals the observation on every route.
+// evalRouteSwitch names the pseudo-switch "the Otto.Eval route instantiates the
+// program as eval code (10.4.2: deletable declaration bindings)" - a route
+// dependence, since every other route runs it as global code.
+const evalRouteSwitch = "otto-eval-route-is-eval-code"
+
 func explain(p *js.Program, obs [6]string) string {
+	// smallest explanation first: the pseudo-switch alone, then every set of
+	// model switches (by size) without and with it
+	if name := explainWith(p, obs, 0, true); name != "" {
+		return name
+	}
 	for _, f := range altOrder {
+		for _, evalRoute := range []bool{false, true} {
+			if name := explainWith(p, obs, f, evalRoute); name != "" {
+				return name
+			}
+		}
+	}
+	return ""
+}
+
+func explainWith(p *js.Program, obs [6]string, f js.Flags, evalRoute bool) string {
+	{
 		g := js.Run(p, false, f, stepBudget)
 		if g.Budget || g.Poison {
-			continue
+			return ""
 		}
 		gs := g.String()
 		ok := true
@@ -267,11 +291,11 @@ func explain(p *js.Program, obs [6]string) string {
 			}
 		}
 		if !ok {
-			continue
+			return ""
 		}
-		e := js.Run(p, true, f, stepBudget)
+		e := js.Run(p, evalRoute, f, stepBudget)
 		if e.Budget || e.Poison {
-			continue
+			return ""
 		}
 		es := e.String()
 		for i := range obs {
@@ -281,7 +305,14 @@ func explain(p *js.Program, obs [6]string) string {
 			}
 		}
 		if ok {
-			return altName(f)
+			name := altName(f)
+			if evalRoute {
+				if name != "" {
+					name += "+"
+				}
+				name += evalRouteSwitch
+			}
+			return name
 		}
 	}
 	return ""
@@ -341,21 +372,16 @@ func checkProgram(r *engine.Run, key string, p *js.Program) bool {
 	}
 	agree := true
 	for i := range obs {
-		want := gs
-		if routeEval[i] {
-			want = es
-		}
-		if obs[i] != want {
+		// route independence: every route, Otto.Eval included, must behave as global code
+		if obs[i] != gs {
 			agree = false
 		}
 	}
 	if agree {
 		return true
 	}
-	exp := "global code: " + gs
-	if es != gs {
-		exp += " ;; eval code: " + es
-	}
+	exp := "every route (global code): " + gs
+	_ = es
 	m := engine.Mismatch{Key: key, Input: src, Expected: exp, Observed: describeObs(obs), Aux: map[string]string{}}
 	if alt := explain(p, obs); alt != "" {
 		m.Aux["alt"] = alt
